@@ -57,7 +57,11 @@ def c09(ctx):
 def c04(ctx):
     from .rules import eam
     eam.run(ctx)
-    return ctx.finish(explanation="interprocedural error-after-mutation path rule over the CFGs of the 11 entry functions")
+    eam.pre_valid(ctx)
+    eam.m_tgt(ctx)
+    return ctx.finish(explanation="interprocedural error-after-mutation path rule over the CFGs of the 11 entry functions, with every frozen exception "
+                      "backed by a mechanical pre-validation rule; frame condition on the stream each DML statement rewrites. Byte equality after a "
+                      "rejected call is not decided")
 
 
 @prop("C16")
